@@ -212,12 +212,21 @@ func (w *world) pay(addr types.Address, n int) {
 // topUp keeps the wallets supplied; it needs a synced pair and leaves one.
 func (w *world) topUp() {
 	paid := false
-	if len(confirmedOnly(w.H.avail())) < 12 {
+	full := func(av []availOut) int { // outputs that still hold (almost) a whole unit
+		n := 0
+		for _, a := range av {
+			if !a.Unconf && a.Value.Cmp(types.Siacoins(900)) >= 0 {
+				n++
+			}
+		}
+		return n
+	}
+	if full(w.H.avail()) < 10 {
 		w.resync()
 		w.pay(w.H.w.Address(), 16)
 		paid = true
 	}
-	if len(confirmedOnly(w.R.avail())) < 6 {
+	if full(w.R.avail()) < 5 {
 		w.resync()
 		w.pay(w.R.w.Address(), 10)
 		paid = true
@@ -251,14 +260,18 @@ func (w *world) afterHostChange() {
 
 // feedRenter makes the renter's node hold the host's best chain up to height h.
 func (w *world) feedRenter(h int) {
-	// first block of the host chain the renter does not have on its best chain
-	from := 0
-	for from < h {
-		idx, ok := w.cmR.BestIndex(uint64(from + 1))
-		if !ok || idx.ID != w.best[from].ID() {
+	// number of leading host blocks the renter already has on its best chain
+	// (search down from the renter's height: the forks are short)
+	from := int(w.cmR.Tip().Height)
+	if from > h {
+		from = h
+	}
+	for from > 0 {
+		idx, ok := w.cmR.BestIndex(uint64(from))
+		if ok && idx.ID == w.best[from-1].ID() {
 			break
 		}
-		from++
+		from--
 	}
 	if from < h {
 		must(w.cmR.AddBlocks(w.best[from:h]))
